@@ -92,10 +92,10 @@ def setup(run):
     rt.attach(haar, "haarSeg", name="haar.haarSeg[diag]", post=_post_haarseg)
     rt.attach(hmm, "hmm_get_model", name="hmm.hmm_get_model[diag]", post=_post_model)
     rt.attach(S, "do_segmentation", name=MON, pre=pre_truth, post=post_truth, on_exc=exc_truth, also=[(CM, "do_segmentation")])
-    return [("haar.haarSeg", haar.haarSeg), ("haar.FDRThres", haar.FDRThres), ("haar.HaarConv", haar.HaarConv), ("haar.FindLocalPeaks", haar.FindLocalPeaks),
-            ("haar.UnifyLevels", haar.UnifyLevels), ("haar.SegmentByPeaks", haar.SegmentByPeaks), ("hmm.hmm_get_model", hmm.hmm_get_model),
-            ("hmm.segment_hmm", hmm.segment_hmm), ("segfilters.squash_by_groups", F.squash_by_groups), ("CopyNumArray.smooth_log2", CN.CopyNumArray.smooth_log2),
-            ("smoothing.savgol", SM.savgol)]
+    return [("haar.haarSeg", rt.opt(haar, "haarSeg")), ("haar.FDRThres", rt.opt(haar, "FDRThres")), ("haar.HaarConv", rt.opt(haar, "HaarConv")), ("haar.FindLocalPeaks", rt.opt(haar, "FindLocalPeaks")),
+            ("haar.UnifyLevels", rt.opt(haar, "UnifyLevels")), ("haar.SegmentByPeaks", rt.opt(haar, "SegmentByPeaks")), ("hmm.hmm_get_model", rt.opt(hmm, "hmm_get_model")),
+            ("hmm.segment_hmm", rt.opt(hmm, "segment_hmm")), ("segfilters.squash_by_groups", rt.opt(F, "squash_by_groups")), ("CopyNumArray.smooth_log2", rt.opt(CN.CopyNumArray, "smooth_log2")),
+            ("smoothing.savgol", rt.opt(SM, "savgol"))]
 
 
 def gen_profile(rng, method, i):
